@@ -28,18 +28,28 @@ RFT = {"lib/tree_decode.c": ["read_from_tree"]}
 RFTSTUB = "read_from_tree: yields the harness' arbitrary command code (< NUM_CODES) for the code tree and an arbitrary offset symbol for the offset tree, consuming no bits (tree walk vs canonical codewords: tree.*)"
 
 
-OUTB = {"lib/lh_new_decoder.c": ["output_byte"]}
+OUTB = {"lib/lh_new_decoder.c": ["output_byte", "start_new_block"]}
+SNB = {"lib/lh_new_decoder.c": ["start_new_block"]}
 
 
 def cmd_h(tag, defs, maxlen, flags=(), tier="both", timeout=300, mem_gb=4, bounds="", backend="cadical", step=False, entry="harness"):
     lk = "LK" in defs or "REAL_LK7" in defs
     return dict(name="cmd." + tag, src="C01/cmd.c", entry=entry, defines=defs + (["STEPWISE"] if step else []),
-                rename_defs=rn(dict(RFT, **OUTB)) if step else rn(RFT),
+                rename_defs=rn(dict(RFT, **OUTB)) if step else rn(dict(RFT, **SNB)),
                 unwindset={"copy_from_history.0": maxlen + 1, "bs_ref.0": 21, "harness.0": 5, "harness.1": 65, "harness_codes.0": 5, "harness_outbyte.0": 515, "havoc_window.0": 65},
                 flags=list(flags), backend=backend, tier=tier, timeout=timeout, mem_gb=mem_gb, bounds=bounds,
-                stubs=[SPECSTUB, RFTSTUB] + (["output_byte: monitor wrapper that checks the byte-at-a-time LZ77 step and calls the real output_byte"] if step else []),
+                stubs=[SPECSTUB, RFTSTUB, "start_new_block: asserted unreachable (block_remaining >= 1)"] + (["output_byte: monitor wrapper that checks the byte-at-a-time LZ77 step and calls the real output_byte"] if step else []),
                 units=["lib/lh_new_decoder.c:lha_lh_new_read,read_code,copy_from_history,read_offset_code,output_byte"
                        + (",lhark_decode_copy_count,lhark_read_offset_code" if lk else "")])
+
+
+def tab_h(tag, hdef, entry, defs, renames, unwindset, bounds, units="", extra_stubs=(), tier="both", timeout=300):
+    uw = {"bs_ref.0": 18, "setup_stream.0": 20, "build_tree.0": 70}
+    uw.update(unwindset)
+    return dict(name="tables." + tag, src="C01/tables.c", entry=entry, defines=[hdef] + defs, rename_defs=rn(renames), unwindset=uw,
+                tier=tier, timeout=timeout, mem_gb=4, bounds=bounds, backend="cadical",
+                stubs=[SPECSTUB] + (["build_tree: capture stub recording (tree, tree_len, code_lengths[0..n), n) (tree construction itself: tree.*)"] if hdef != "H_LEN" else []) + list(extra_stubs),
+                units=["lib/lh_new_decoder.c:" + units])
 
 
 HARNESSES = [
@@ -64,37 +74,61 @@ HARNESSES = [
          units=["lib/tree_decode.c:set_tree_single,read_from_tree,init_tree"], timeout=120, stubs=[SPECSTUB],
          bounds="any symbol < 128, tree of 64 entries"),
     # ---- H01.cmd  (closed-form oracle for short copies; byte-at-a-time oracle for the whole length range)
-    cmd_h("closed.hb4", ["HB=4", "OB=3", "LENMAX=32"], 32, timeout=300,
-          bounds="closed-form oracle; template at HISTORY_BITS 4 (16-byte ring): window, position, offset symbol 0..4 + extra bits symbolic, literal or copy length 3..32 (ring wraps twice)"),
-    cmd_h("closed.lk.hb4", ["HB=4", "OB=4", "LK", "LENMAX=32"], 32, timeout=300,
-          bounds="closed-form oracle; LHARK template at HISTORY_BITS 4: length classes up to 32, distance codes 0..7"),
-    cmd_h("closed.hb6", ["HB=6", "OB=3", "LENMAX=16"], 16, timeout=400,
+    cmd_h("closed.hb4", ["HB=4", "OB=3", "LENMAX=16"], 16, timeout=300,
+          bounds="closed-form oracle; template at HISTORY_BITS 4 (16-byte ring): window, position, offset symbol 0..4 + extra bits symbolic, literal or copy length 3..16"),
+    cmd_h("closed.hb4.l32", ["HB=4", "OB=3", "LENMAX=32"], 32, timeout=900, tier="thorough",
+          bounds="closed-form oracle; template at HISTORY_BITS 4: as closed.hb4 with copy length 3..32 (ring wraps twice)"),
+    cmd_h("closed.lk.hb4", ["HB=4", "OB=4", "LK", "LENMAX=20"], 20, timeout=300,
+          bounds="closed-form oracle; LHARK template at HISTORY_BITS 4: length codes 256..268 (lengths 3..20, first extra-bit classes), distance codes 0..7"),
+    cmd_h("closed.lk.hb4.l32", ["HB=4", "OB=4", "LK", "LENMAX=32"], 32, timeout=900, tier="thorough",
+          bounds="closed-form oracle; LHARK template at HISTORY_BITS 4: lengths 3..32, distance codes 0..7"),
+    cmd_h("closed.hb6", ["HB=6", "OB=3", "LENMAX=16"], 16, timeout=900, tier="thorough",
           bounds="closed-form oracle; template at HISTORY_BITS 6 (64-byte ring): everything symbolic, copy length 3..16"),
-    cmd_h("closed.lh5", ["REAL_LH5", "LENMAX=16"], 16, flags=["--arrays-uf-always"], timeout=600, mem_gb=6,
-          bounds="closed-form oracle; real lib/lh5_decoder.c (16 KiB ring): arbitrary ring, symbolic position, offset symbol 0..14 with symbolic extra bits, literal or copy of length 3..16"),
+    cmd_h("closed.lh5", ["REAL_LH5", "LENMAX=8"], 8, flags=["--arrays-uf-always"], timeout=400, mem_gb=6,
+          bounds="closed-form oracle; real lib/lh5_decoder.c (16 KiB ring): arbitrary ring, symbolic position, offset symbol 0..14 with symbolic extra bits, literal or copy of length 3..8"),
+    cmd_h("closed.lh5.l16", ["REAL_LH5", "LENMAX=16"], 16, flags=["--arrays-uf-always"], timeout=1800, mem_gb=6, tier="thorough",
+          bounds="closed-form oracle; real lib/lh5_decoder.c (16 KiB ring): as closed.lh5 with copy length 3..16"),
     cmd_h("closed.lk7", ["REAL_LK7", "LENMAX=16"], 16, flags=["--arrays-uf-always"], tier="thorough", timeout=1800, mem_gb=6,
           bounds="closed-form oracle; real lib/lk7_decoder.c (64 KiB ring): arbitrary ring, symbolic position, distance codes 0..31, copy length 3..16"),
     cmd_h("closed.lh7", ["REAL_LH7", "LENMAX=16"], 16, flags=["--arrays-uf-always"], tier="thorough", timeout=1800, mem_gb=6,
           bounds="closed-form oracle; real lib/lh7_decoder.c (128 KiB ring): arbitrary ring, symbolic position, offset symbol 0..17, copy length 3..16"),
-    cmd_h("step.hb4", ["HB=4", "OB=3"], 256, step=True, timeout=300,
-          bounds="byte-at-a-time oracle; template at HISTORY_BITS 4: window, position, code (literal / every length 3..256), offset symbol 0..4, extra bits all symbolic; ring wraps up to 16 times"),
-    cmd_h("step.hb6", ["HB=6", "OB=3"], 256, step=True, timeout=300,
+    cmd_h("step.hb4", ["HB=4", "OB=3", "LENMAX=128"], 128, step=True, timeout=300,
+          bounds="byte-at-a-time oracle; template at HISTORY_BITS 4: window, position, code (literal / every length 3..128), offset symbol 0..4, extra bits all symbolic; ring wraps up to 8 times"),
+    cmd_h("step.hb4.full", ["HB=4", "OB=3"], 256, step=True, timeout=1200, tier="thorough",
+          bounds="byte-at-a-time oracle; template at HISTORY_BITS 4: as step.hb4 with every length 3..256; ring wraps up to 16 times"),
+    cmd_h("step.hb6.full", ["HB=6", "OB=3"], 256, step=True, timeout=1800, tier="thorough",
           bounds="byte-at-a-time oracle; template at HISTORY_BITS 6: everything symbolic, every length 3..256, offset symbols 0..6"),
-    cmd_h("step.lk.hb4", ["HB=4", "OB=4", "LK"], 514, step=True, timeout=300,
+    cmd_h("step.lk.hb4.full", ["HB=4", "OB=4", "LK"], 514, step=True, timeout=1800, tier="thorough",
           bounds="byte-at-a-time oracle; LHARK template at HISTORY_BITS 4, NUM_CODES 289: every length class 3..514, distance codes 0..7"),
-    cmd_h("step.lk.hb6", ["HB=6", "OB=4", "LK"], 514, step=True, timeout=300,
+    cmd_h("step.lk.hb6.full", ["HB=6", "OB=4", "LK"], 514, step=True, timeout=1800, tier="thorough",
           bounds="byte-at-a-time oracle; LHARK template at HISTORY_BITS 6: every length class 3..514, distance codes 0..11"),
-    cmd_h("step.lk.hb3", ["HB=3", "OB=4", "LK"], 514, step=True, timeout=300,
-          bounds="byte-at-a-time oracle; LHARK template at HISTORY_BITS 3 (8-byte ring): every length class 3..514, distance codes 0..5"),
-    cmd_h("step.lh5", ["REAL_LH5"], 256, step=True, flags=["--arrays-uf-always"], tier="thorough", timeout=1800, mem_gb=6,
-          bounds="byte-at-a-time oracle; real lib/lh5_decoder.c (16 KiB ring): position, offset symbol 0..14, extra bits, every length 3..256 symbolic"),
     cmd_h("codes.lh5", ["REAL_LH5"], 1, entry="harness_codes", timeout=120, bounds="real lib/lh5_decoder.c: every offset symbol 0..14, all extra bits, any bit alignment"),
-    cmd_h("codes.lh6", ["REAL_LH6"], 1, entry="harness_codes", timeout=120, bounds="real lib/lh6_decoder.c: every offset symbol 0..16, all extra bits, any bit alignment"),
-    cmd_h("codes.lh7", ["REAL_LH7"], 1, entry="harness_codes", timeout=120, bounds="real lib/lh7_decoder.c: every offset symbol 0..17, all extra bits, any bit alignment"),
-    cmd_h("codes.lhx", ["REAL_LHX"], 1, entry="harness_codes", timeout=120, bounds="real lib/lhx_decoder.c: every offset symbol 0..20, all extra bits, any bit alignment"),
+    cmd_h("codes.lh6", ["REAL_LH6"], 1, entry="harness_codes", timeout=300, tier="thorough", bounds="real lib/lh6_decoder.c: every offset symbol 0..16, all extra bits, any bit alignment"),
+    cmd_h("codes.lh7", ["REAL_LH7"], 1, entry="harness_codes", timeout=300, tier="thorough", bounds="real lib/lh7_decoder.c: every offset symbol 0..17, all extra bits, any bit alignment"),
+    cmd_h("codes.lhx", ["REAL_LHX"], 1, entry="harness_codes", timeout=300, bounds="real lib/lhx_decoder.c: every offset symbol 0..20, all extra bits, any bit alignment"),
     cmd_h("codes.lk7", ["REAL_LK7"], 1, entry="harness_codes", timeout=120, bounds="real lib/lk7_decoder.c: every distance code 0..31 and every length code 256..288, all extra bits, any bit alignment"),
     cmd_h("outbyte.hb4", ["HB=4", "OB=3"], 256, step=True, entry="harness_outbyte", timeout=120,
           bounds="real output_byte from an arbitrary 16-byte ring / position / buffer fill"),
     cmd_h("outbyte.lh5", ["REAL_LH5"], 256, step=True, entry="harness_outbyte", timeout=120, flags=["--arrays-uf-always"],
           bounds="real output_byte of lib/lh5_decoder.c from an arbitrary 16 KiB ring / position / buffer fill"),
+    # ---- H01.tables
+    tab_h("len", "H_LEN", "harness_len", ["BS_N=6"], {}, {"read_length_value.0": 47, "ref_length.0": 47},
+          "read_length_value from any position of an arbitrary 48-bit string of any length (unary extensions up to 45)", units="read_length_value"),
+    tab_h("temp", "H_TEMP", "harness_temp", ["BS_N=8"], {"lib/tree_decode.c": ["build_tree"]},
+          {"read_length_value.0": 62, "ref_length.0": 62, "read_temp_table.0": 5, "read_temp_table.1": 33, "harness_temp.0": 37, "harness_temp.1": 5, "harness_temp.2": 33, "read_from_tree.0": 2},
+          "read_temp_table on an arbitrary bit string of <= 64 bits starting at any alignment: every n, skip field, extension (complete tables up to 19 entries fit; longer ones checked up to truncation)", units="read_temp_table,read_length_value"),
+    tab_h("code", "H_CODE", "harness_code", ["BS_N=8", "NC=24"], {"lib/tree_decode.c": ["build_tree", "read_from_tree"]},
+          {"read_code_table.0": 27, "read_code_table.1": 27, "harness_code.0": 27, "harness_code.1": 27, "harness_code.2": 27, "harness_code.3": 27, "real_read_from_tree.0": 2},
+          "read_code_table with NUM_CODES = 24 (template instantiated small): arbitrary n <= 24, arbitrary temp-symbol sequence 0..30, arbitrary extra bits in a <= 64-bit string: all three zero-run classes incl. runs clipped at the table end",
+          units="read_code_table,read_skip_count", extra_stubs=["read_from_tree(temp tree): arbitrary pre-drawn symbol sequence 0..30, consumed identically by the reference"]),
+    tab_h("off4", "H_OFF", "harness_off", ["BS_N=8", "OB=4"], {"lib/tree_decode.c": ["build_tree"]},
+          {"read_length_value.0": 62, "ref_length.0": 62, "read_offset_table.0": 18, "harness_off.0": 18, "harness_off.1": 18, "read_from_tree.0": 2},
+          "read_offset_table with OFFSET_BITS 4 (-lh4/5-) on an arbitrary <= 64-bit string: every n 0..15", units="read_offset_table,read_length_value"),
+    tab_h("off5", "H_OFF", "harness_off", ["BS_N=13", "OB=5"], {"lib/tree_decode.c": ["build_tree"]},
+          {"read_length_value.0": 102, "ref_length.0": 102, "read_offset_table.0": 34, "harness_off.0": 34, "harness_off.1": 34, "read_from_tree.0": 2},
+          "read_offset_table with OFFSET_BITS 5 (-lh6/7/x-) on an arbitrary <= 104-bit string: every n 0..31", units="read_offset_table,read_length_value", tier="thorough", timeout=1800),
+    tab_h("blockhdr", "H_BLOCKHDR", "harness_blockhdr", ["BS_N=4"], {"lib/tree_decode.c": ["build_tree"], "lib/lh_new_decoder.c": ["read_temp_table", "read_code_table", "read_offset_table"]},
+          {}, "start_new_block on an arbitrary <= 32-bit string; the three table readers replaced by recording stubs with arbitrary results", units="start_new_block",
+          extra_stubs=["read_temp_table/read_code_table/read_offset_table: record call order, return arbitrary success/failure (each verified by its own tables.* harness)"]),
 ]
+
